@@ -346,6 +346,30 @@ def bernoulli_case(col, rng, explicit):
     col.add(bad)
 
 
+def extreme_odds_case(col, rng):
+    """two-outcome variables whose full conditional is (numerically) a point mass on the SECOND outcome - overwhelming evidence (log-odds ~ 270), or zero prior
+    mass on the first outcome: every draw is the second outcome, whatever the key (and with the evidence reversed, the first)"""
+    bad = []
+    for scen in ("strong_evidence_for_second", "strong_evidence_for_first", "zero_prior_mass_on_first"):
+        if scen == "zero_prior_mass_on_first":
+            z = lsl.Var(np.float32(1.0), lsl.Dist(tfd.FiniteDiscrete, outcomes=lsl.Var(np.array([0.0, 1.0], np.float32), name="grid"), probs=np.array([0.0, 1.0], np.float32)), name="z")
+            ydata = rng.normal(size=5).astype(np.float32)
+            want = 1.0
+        else:
+            z = lsl.Var(np.int32(0), lsl.Dist(tfd.Bernoulli, probs=0.5), name="z")
+            want = 1.0 if scen.endswith("second") else 0.0
+            ydata = (rng.normal(size=60) + 3.0 * want).astype(np.float32)
+        loc = lsl.Var(lsl.Calc(lambda zz: 3.0 * zz, z), name="loc")
+        y = lsl.obs(ydata, lsl.Dist(tfd.Normal, loc=loc, scale=1.0), name="y")
+        model = lsl.GraphBuilder().add(y).build_model()
+        kernel = finite_discrete_gibbs_kernel("z", model)
+        state = model.state
+        draws = [float(kernel._transition_fn(jax.random.PRNGKey(k), state)["z"]) for k in range(8)]
+        if any(d != want for d in draws):
+            bad.append(f"{scen}: draws {draws} for 8 keys, the full conditional puts (numerically) all its mass on {want}")
+    col.add(None if not bad else {"sig": "native::gibbs::finite_discrete_extreme_odds", "what": "; ".join(bad), "input": {"scenarios": ["Bernoulli(0.5) indicator shifting the mean of 60 N(., 1) observations by 3", "FiniteDiscrete([0, 1], probs [0, 1])"]}})
+
+
 def bounded(tier, seed):
     rng = np.random.default_rng(seed)
     col = util.Collector()
@@ -408,6 +432,11 @@ def bounded(tier, seed):
         except Exception as e:
             col.add({"sig": f"native::gibbs::exception::{type(e).__name__}", "what": str(e)[:200], "input": {"kernel": "finite_discrete", "dependent_prior": True}})
         n += 1
+        try:
+            extreme_odds_case(col, rng)
+        except Exception as e:
+            col.add({"sig": f"native::gibbs::exception::{type(e).__name__}", "what": str(e)[:200], "input": {"kernel": "finite_discrete", "scenario": "extreme odds"}})
+        n += 3
         for explicit in (False, True):
             try:
                 bernoulli_case(col, rng, explicit)
@@ -418,6 +447,6 @@ def bounded(tier, seed):
             "rule": (CORE_RULE + "; " + f"BOUNDED: DistRegBuilder models with a full-rank and a rank-deficient (second-difference) penalty, hyperparameters a, b left as built or changed AFTER the kernel was created, plus a penalty scaled by 1e-7 and a full-rank penalty with one eigenvalue of 1e-8 (rank by matrix_rank vs. eigenvalue thresholds): "
                      "the inverse-gamma shape and scale solved from three evaluations of the MODEL's log-density in tau2 (coefficients 100 + noise, b = 0.001, first-difference and full-rank penalty) against the scale the kernel's draws reveal (fresh binary64 interpreter process); "
                      "the kernel's draw for a fixed key equals b*/gamma(key, a*) with a* = a + rank/2, b* = b + beta'K beta/2 from the state, and model log-density minus log IG(a*, b*) is constant "
-                     "over a tau2 grid; two smooths with different penalties and hyper-parameters in one model, kernels used in both orders; finite-discrete kernel with the grid taken from a logits-parameterised prior with a float32-zero-probability outcome; finite-discrete kernel on outcome grids of 150 / 128 points (one logit per outcome, captured at the sampler); finite-discrete kernel on k ~ FiniteDiscrete with a downstream Normal likelihood: draw = outcomes[categorical(key, joint log-densities)], eager and jit; a model in which the discrete variable parameterises the prior of a parameter and the distribution of an unflagged variable (logits captured at jax.random.categorical and compared with the joint log-density up to a constant); the same for a Bernoulli variable with derived and with explicitly given (unsorted) outcomes. "
+                     "over a tau2 grid; two smooths with different penalties and hyper-parameters in one model, kernels used in both orders; finite-discrete kernel with the grid taken from a logits-parameterised prior with a float32-zero-probability outcome; finite-discrete kernel on outcome grids of 150 / 128 points (one logit per outcome, captured at the sampler); finite-discrete kernel on k ~ FiniteDiscrete with a downstream Normal likelihood: draw = outcomes[categorical(key, joint log-densities)], eager and jit; a model in which the discrete variable parameterises the prior of a parameter and the distribution of an unflagged variable (logits captured at jax.random.categorical and compared with the joint log-density up to a constant); the same for a Bernoulli variable with derived and with explicitly given (unsorted) outcomes; two-outcome variables whose full conditional is numerically a point mass (log-odds ~ +-270, zero prior mass on the first outcome): all draws equal that outcome. "
                      f"Both kernels also through GibbsKernel.transition with integer start values (stored value = draw). The sampling distributions themselves are not tested (sampler primitives trusted). seed={seed}, {reps} repetition(s)."),
             "samples": [{"hyperparameters_changed_after_kernel_creation": True, "rank_deficient": True}], "exhaustive": False, "violations": col.violations}
